@@ -55,13 +55,16 @@ const (
 	c40AgeLimit          = 2 * time.Second
 	c40T1                = 110 * time.Millisecond  // past BatchSendDeadline and every backoff
 	c40T2                = 1600 * time.Millisecond // past the flush deadline
+	c40T3                = 5100 * time.Millisecond // past the watcher's checkpoint period (WAL feeder only)
 	c40MaxBatches        = 3
 )
 
 type c40Cfg struct {
 	Name string
-	V2   bool // remote write 2.0 message (populateV2TimeSeries / sendV2SamplesWithBackoff)
-	Age  bool // sample_age_limit = 2s, plus one always-too-old and one borderline sample per batch
+	V2   bool  // remote write 2.0 message (populateV2TimeSeries / sendV2SamplesWithBackoff)
+	Age  bool  // sample_age_limit = 2s, plus one always-too-old and one borderline sample per batch
+	Tie  int32 // order of fake timers expiring at the same instant: 0 armed-first-first, 1 armed-last-first
+	Wal  bool  // fed by a real Head + WAL + wlog.Watcher (set by the driver)
 	// Menu restricts the event menu (nil = everything).
 	Menu []string
 }
@@ -72,6 +75,9 @@ func c40Configs() map[string]c40Cfg {
 		"v2":     {Name: "v2", V2: true},
 		"v1+age": {Name: "v1+age", Age: true},
 		"v2+age": {Name: "v2+age", V2: true, Age: true},
+		// same-instant timers fire in the opposite order
+		"v1~lifo":     {Name: "v1~lifo", Tie: 1},
+		"v2+age~lifo": {Name: "v2+age~lifo", V2: true, Age: true, Tie: 1},
 	}
 }
 
@@ -263,6 +269,9 @@ func c40NewWorld(cfg c40Cfg, mkFeed func(w *c40World) c40Feeder) *c40World {
 		newEWMARate(ewmaWeight, shardUpdateDuration), qc, config.DefaultMetadataConfig,
 		c40External, c40RelabelConfigs(), &c40Client{w: w}, c40FlushDeadline, newPool(),
 		&maxTimestamp{Gauge: prometheus.NewGauge(prometheus.GaugeOpts{Name: "c40_highest_timestamp"})}, nil, true, true, false, msg, record.NewBuffersPool(), false)
+	if p, ok := w.feed.(interface{ Prepare(w *c40World) }); ok {
+		p.Prepare(w)
+	}
 	w.m.Start()
 	if s, ok := w.feed.(interface{ Started(w *c40World) }); ok {
 		s.Started(w)
@@ -277,7 +286,7 @@ func c40NewWorld(cfg c40Cfg, mkFeed func(w *c40World) c40Feeder) *c40World {
 // sample, one exemplar; with the age configuration also one sample that is far beyond the age
 // limit and one (series m6) that is within the limit only during the first 50ms.
 func (w *c40World) c40BatchRecords(i int) (samples []record.RefSample, hists []record.RefHistogramSample, exs []record.RefExemplar) {
-	t0 := w.base + int64(i)*10
+	t0 := w.base + 1000 + int64(i)*10 // after the start of the queue (the watcher only forwards newer samples)
 	if w.cfg.Age {
 		t0 += int64(time.Hour / time.Millisecond) // never too old
 	}
@@ -332,6 +341,7 @@ type c40Emu struct {
 	processed int
 	queued    int
 	dead      bool // an Append* returned false (shutdown): the watcher stops reading
+	exited    bool
 	batchOK   map[int]bool
 }
 
@@ -356,6 +366,9 @@ func (f *c40Emu) Started(w *c40World) {
 			}
 			w.mu.Unlock()
 		}
+		w.mu.Lock()
+		f.exited = true
+		w.mu.Unlock()
 	}()
 	var ss []record.RefSeries
 	for _, d := range w.defs {
@@ -373,7 +386,9 @@ func (f *c40Emu) push(w *c40World, call func(m *QueueManager) bool) {
 }
 
 func (f *c40Emu) Submit(w *c40World, i int) {
+	w.mu.Lock()
 	samples, hists, exs := w.c40BatchRecords(i)
+	w.mu.Unlock()
 	f.push(w, func(m *QueueManager) bool { return m.Append(samples) })
 	f.push(w, func(m *QueueManager) bool { return m.AppendHistograms(hists) })
 	f.push(w, func(m *QueueManager) bool {
@@ -405,7 +420,20 @@ func (f *c40Emu) BatchDone(w *c40World, i int) bool { return f.batchOK[i] }
 func (f *c40Emu) Progress(w *c40World) string {
 	return fmt.Sprintf("emu %d/%d dead=%v", f.processed, f.queued, f.dead)
 }
-func (f *c40Emu) Close(w *c40World) { close(f.fifo) }
+func (f *c40Emu) Close(w *c40World) {
+	close(f.fifo)
+	// the fake clock stops when the root goroutine returns: let a sleeping Append* wake up first
+	for i := 0; i < 200; i++ {
+		synctest.Wait()
+		w.mu.Lock()
+		ex := f.exited
+		w.mu.Unlock()
+		if ex {
+			return
+		}
+		w.sleep(100 * time.Millisecond)
+	}
+}
 
 // ---- fake endpoint ---------------------------------------------------------------------------
 
@@ -740,7 +768,11 @@ func (w *c40World) Ops() []string {
 	busy := len(w.pending) > 0 || w.retryWait || live < 0 || !w.feed.Idle(w) || w.outstanding() > 0 || (w.stopAsked && !w.stopped)
 	if busy {
 		add("T1")
-		add("T2")
+		if w.cfg.Wal {
+			add("T3")
+		} else {
+			add("T2")
+		}
 	}
 	if !w.stopAsked && live > 0 {
 		for n := 2; n <= 3; n++ {
@@ -752,7 +784,9 @@ func (w *c40World) Ops() []string {
 			add("R1")
 		}
 	}
-	if !w.stopAsked && !w.gcDone && w.submitted > 0 {
+	// With the real WAL the checkpoint is only taken when the watcher has caught up: truncating
+	// segments it has not read makes it restart and (by design) skip what was written before.
+	if !w.stopAsked && !w.gcDone && w.submitted > 0 && (!w.cfg.Wal || (w.feed.Idle(w) && live > 0)) {
 		add("G")
 	}
 	if !w.stopAsked {
@@ -831,9 +865,9 @@ func (w *c40World) Apply(op string) {
 		if len(w.pending) > 0 {
 			w.answer(w.pending[len(w.pending)-1], c40AnsOK)
 		}
-	case op == "T1" || op == "T2":
+	case op == "T1" || op == "T2" || op == "T3":
 		w.mu.Unlock()
-		w.sleep(map[string]time.Duration{"T1": c40T1, "T2": c40T2}[op])
+		w.sleep(map[string]time.Duration{"T1": c40T1, "T2": c40T2, "T3": c40T3}[op])
 		return
 	case strings.HasPrefix(op, "R"):
 		n := int(op[1] - '0')
@@ -995,7 +1029,7 @@ func (w *c40World) Close() {
 // stats for coverage accounting (after Check).
 type c40Stats struct {
 	Ingested, Exempt, Failures, Arrivals, MaxShards int
-	Outcome                                          string
+	Outcome                                         string
 }
 
 func (w *c40World) stats() c40Stats {
